@@ -61,6 +61,153 @@ def _shallow_source(f, l, depth=0):
     return ("other", rv["k"])
 
 
+def _extreme_of_inputs(f, l, fname):
+    """l = max(x.end, y.end) (or min(x.start, y.start)) of two input extents: returns one of the extent locals."""
+    from cfg import whole_defs
+    ds = whole_defs(f, l)
+    for _ in range(4):
+        if len(ds) == 1 and not ds[0].is_term and ds[0].node["rv"]["k"] == "use" and op_local(ds[0].node["rv"]["op"]) is not None \
+                and not (op_place(ds[0].node["rv"]["op"]).get("p")):
+            ds = whole_defs(f, op_local(ds[0].node["rv"]["op"]))
+        else:
+            break
+    if len(ds) != 1 or not ds[0].is_term or ds[0].node["k"] != "call":
+        return None
+    t = ds[0].node
+    o = callee_orig(t) or ""
+    want = ("core::cmp::max", "core::cmp::Ord::max") if fname == "end" else ("core::cmp::min", "core::cmp::Ord::min")
+    if o not in want or len(t["args"]) != 2:
+        return None
+    bases = []
+    for a_ in t["args"]:
+        al = op_local(a_)
+        src = _shallow_source(f, al) if al is not None else ("other", "const")
+        if not (src[0] == "field" and src[2] == fname and f.locals[src[1]]["ty"] == EXTENT):
+            return None
+        bases.append(src[1])
+    return bases[0]
+
+
+def _lin(f, l, depth=0):
+    """l == base.field + c, following plain moves, `.0` of checked arithmetic and +/- constants: (base, field, c) | None."""
+    from cfg import whole_defs
+    ds = whole_defs(f, l)
+    if len(ds) != 1 or depth > 8 or ds[0].is_term:
+        return None
+    rv = ds[0].node["rv"]
+    if rv["k"] in ("use", "cast"):
+        p = op_place(rv["op"])
+        if p is None:
+            return None
+        named = [e for e in p.get("p", []) if isinstance(e, dict) and "f" in e]
+        if named:
+            last = named[-1]
+            if last.get("adt") == EXTENT:
+                return (p["l"], last.get("n"), 0)
+            if len(named) == 1 and str(last.get("f")) == "0" and last.get("adt") is None:
+                return _lin(f, p["l"], depth + 1)
+            return None
+        return _lin(f, p["l"], depth + 1)
+    if rv["k"] == "bin" and rv["op"].startswith(("Add", "Sub")):
+        a_, b_ = rv["a"], rv["b"]
+        sign = 1 if rv["op"].startswith("Add") else -1
+        if "c" in b_ and isinstance(b_["c"].get("v"), int) and op_local(a_) is not None:
+            x = _lin(f, op_local(a_), depth + 1)
+            return None if x is None else (x[0], x[1], x[2] + sign * b_["c"]["v"])
+        if "c" in a_ and isinstance(a_["c"].get("v"), int) and op_local(b_) is not None and sign == 1:
+            x = _lin(f, op_local(b_), depth + 1)
+            return None if x is None else (x[0], x[1], x[2] + a_["c"]["v"])
+    return None
+
+
+def merge_guard(fx):
+    """(c2) merging never shrinks the pending extent: where a merged extent takes its `start` from the pending
+    extent P and its `end` from the next extent E (a plain copy, not a max), the test that leads there bounds
+    E.start from *below* by P.end (`==`, `>=`, `>`), so that E.end >= E.start >= P.end.  A test that only bounds it
+    from above (`E.start <= P.end + 1`) also admits an E contained in P, and the tail of P drops out of the map."""
+    f = fx.fn(MERGE)
+    if f is None:
+        return [anchor_ob("R-TABLE", MERGE)]
+    cfg = cfg_of(f)
+    obs = []
+    notes = []
+    k = 0
+    for bi, b in enumerate(f.blocks):
+        if b.get("cleanup"):
+            continue
+        for s in b["stmts"]:
+            rv = s["rv"]
+            if not (rv["k"] == "agg" and rv.get("adt") == EXTENT):
+                continue
+            srcs = {}
+            for fname in ("start", "end"):
+                o = rv["fields"][rv["fnames"].index(fname)]
+                l = op_local(o)
+                srcs[fname] = _lin(f, l) if l is not None else None
+                if fname == "end" and l is not None and _extreme_of_inputs(f, l, "end"):
+                    srcs[fname] = "max"
+            if srcs["end"] == "max":
+                obs.append(Ob("R-TABLE", mkkey("R-TABLE", MERGE, "merged.end", k, "no-shrink"), True,
+                              "%s:%d" % (s["span"]["file"], s["span"]["line"]), MERGE,
+                              "merged extent ends at the larger of the two ends"))
+                k += 1
+                continue
+            st, en = srcs["start"], srcs["end"]
+            if not st or not en or st[1] != "start" or en[1] != "end" or st[2] != 0 or en[2] != 0 or st[0] == en[0]:
+                continue        # not a two-extent merge of this shape (rule (c) judges its fields)
+            P, E = st[0], en[0]
+            rel = []            # (switch block, gives lower bound?, text)
+            for u, bu in enumerate(f.blocks):
+                t = bu["term"]
+                if bu.get("cleanup") or t["k"] != "switch" or t.get("op_ty") != "bool" or len(t["targets"]) != 1:
+                    continue
+                val, tb = t["targets"][0]
+                for v, truth in ((tb, str(val) != "0"), (t["otherwise"], str(val) == "0")):
+                    if v == tb and tb == t["otherwise"]:
+                        continue
+                    if not cfg.edge_dominates((u, v), bi):
+                        continue
+                    from cfg import whole_defs
+                    cl = op_local(t["op"])
+                    ds = whole_defs(f, cl) if cl is not None else []
+                    if len(ds) != 1 or ds[0].is_term or ds[0].node["rv"]["k"] != "bin":
+                        continue
+                    c = ds[0].node["rv"]
+                    la = _lin(f, op_local(c["a"])) if op_local(c["a"]) is not None else None
+                    lb = _lin(f, op_local(c["b"])) if op_local(c["b"]) is not None else None
+                    if not la or not lb:
+                        continue
+                    op = c["op"]
+                    if (la[0], la[1]) == (P, "end") and (lb[0], lb[1]) == (E, "start"):
+                        la, lb = lb, la
+                        op = {"Gt": "Lt", "Lt": "Gt", "Ge": "Le", "Le": "Ge"}.get(op, op)
+                    if (la[0], la[1]) != (E, "start") or (lb[0], lb[1]) != (P, "end"):
+                        continue
+                    # on this edge:  E.start + la[2]  <op is truth>  P.end + lb[2]
+                    lower = (op == "Eq" and truth) or (op in ("Ge", "Gt") and truth) or (op in ("Lt", "Le") and not truth) \
+                        or (op == "Ne" and not truth)
+                    slack = lb[2] - la[2] + (1 if (op == "Gt" and truth) or (op == "Le" and not truth) else 0)
+                    rel.append((u, lower and slack >= 0, lower and slack < 0,
+                                "%s.start%+d %s %s.end%+d is %s" % (f.name_of_local.get(E, "_%d" % E), la[2], op,
+                                                                    f.name_of_local.get(P, "_%d" % P), lb[2], truth)))
+            loc = "%s:%d" % (s["span"]["file"], s["span"]["line"])
+            if not rel or any(r[2] for r in rel) and not any(r[1] for r in rel):
+                notes.append(dict(site=loc, undecided="no test relating %s.start and %s.end leads to the merge"
+                                  % (f.name_of_local.get(E, E), f.name_of_local.get(P, P)) if not rel else
+                                  "the test allows an overlap of a constant size: " + "; ".join(r[3] for r in rel)))
+                continue
+            ok = any(r[1] for r in rel)
+            obs.append(Ob("R-TABLE", mkkey("R-TABLE", MERGE, "merged.end", k, "no-shrink"), ok, loc, MERGE,
+                          "the merged extent ends at %s.end, and the test leading here (%s) %s" % (
+                              f.name_of_local.get(E, "_%d" % E), "; ".join(r[3] for r in rel),
+                              "bounds its start from below by the pending extent's end: nothing is dropped" if ok else
+                              "does NOT bound its start from below: an extent contained in the pending one shrinks it"),
+                          None if ok else dict(tests=[r[3] for r in rel])))
+            k += 1
+    merge_guard.notes = notes
+    return obs
+
+
 def _root_local(f, l, depth=0):
     """The local a reference/copy chain starts from (`_p = move _t; _t = &(*_1)` -> _1)."""
     du = defuse(f)
@@ -116,6 +263,12 @@ def _consuming_blocks(f, l):
                 for s2, h2 in du.uses.get(tgt, []):
                     if not s2.is_term and s2.node["rv"]["k"] == "agg" and s2.node["rv"].get("adt") == EXTENT:
                         out.add(site.bb)
+                    # through max()/min() of two boundaries (`end: max(p.end, e.end)`)
+                    if s2.is_term and s2.node["k"] == "call" and (callee_orig(s2.node) or "") in (
+                            "core::cmp::max", "core::cmp::Ord::max", "core::cmp::min", "core::cmp::Ord::min"):
+                        for s3, h3 in du.uses.get(s2.node["dest"]["l"], []):
+                            if not s3.is_term and s3.node["rv"]["k"] == "agg" and s3.node["rv"].get("adt") == EXTENT:
+                                out.add(site.bb)
                     lp2 = [e_ for e_ in (s2.node.get("lhs", {}).get("p") or []) if isinstance(e_, dict) and "f" in e_] \
                         if not s2.is_term else []
                     if lp2 and lp2[-1].get("adt") == EXTENT and h2 == "rv":
@@ -190,6 +343,8 @@ def merge_linear(fx):
                     l = op_local(o)
                     src = _shallow_source(f, l) if l is not None else ("other", "const")
                     ok = src[0] == "field" and src[2] == fname and f.locals[src[1]]["ty"] == EXTENT
+                    if not ok and l is not None and _extreme_of_inputs(f, l, fname):
+                        ok, src = True, ("field", _extreme_of_inputs(f, l, fname), fname)
                     why = ("copies the `%s` of input extent `%s`" % (fname, f.name_of_local.get(src[1], "_%d" % src[1]))) if ok \
                         else "is computed from %s" % (src,)
                     obs.append(Ob("R-TABLE", mkkey("R-TABLE", MERGE, "merged." + fname, k, "input-boundary"), ok,
@@ -362,4 +517,6 @@ def c19(ctx):
     fx = ctx.fx("A")
     ctx.add(map_forwards(fx))
     ctx.add(merge_linear(fx))
+    ctx.add(merge_guard(fx))
+    ctx.rep.extra["merge_guard_undecided"] = merge_guard.notes
     ctx.add(segments_from_seek(fx))
